@@ -227,6 +227,35 @@ func c09R2(e *Engine) {
 				}
 			}
 			if kind == "slice" {
+				// x[:len(y)] under len(x) >= len(y) (the explicit prefix comparison): 0 <= len(y) <= len(x) <= cap(x)
+				if sl, isSl := in.(*ssa.Slice); isSl && sl.Low == nil && sl.High != nil && sl.Max == nil {
+					if hy, isLen := lenOf(sl.High); isLen {
+						for _, cd := range condsAt(in.Block()) {
+							cd = normCond(cd)
+							bo, ok := cd.V.(*ssa.BinOp)
+							if !ok {
+								continue
+							}
+							op, l, r := bo.Op, bo.X, bo.Y
+							if !cd.Val {
+								op = negOp(op)
+							}
+							lx, ok1 := lenOf(l)
+							ly, ok2 := lenOf(r)
+							if !ok1 || !ok2 {
+								continue
+							}
+							if op == token.LEQ || op == token.LSS {
+								lx, ly = ly, lx
+								op = flipOp(op)
+							}
+							if (op == token.GEQ || op == token.GTR) && sameSlice(lx, x) && sameSlice(ly, hy) {
+								record(construct, e.ipos(in), Pass, "slice bound len(y) with len(x) >= len(y) established")
+								return
+							}
+						}
+					}
+				}
 				record(construct, e.ipos(in), Fail, "slice expression with bounds the fact domain cannot establish")
 				return
 			}
